@@ -128,19 +128,22 @@ let () = serve (fun fn req ->
           ("depth", of_nat (fdepth t))]
   (* whole object: envelope, then the message by schema; and back *)
   | "decode_all" ->
-    (match env_decode (jbytes (jfield req "d")) with
-     | EnvOk e ->
-       let p = (match e with Unsigned p -> p | Signed (_, _, p) -> p) in
-       JObj [("env", of_env e);
-             ("tree", of_wres (fun fs -> JArr (SL.map of_tfield fs))
-                (parse_tree (jschema (jfield req "schema")) (jnat (jfield req "depth")) (jn (jfield req "m")) p))]
-     | EnvEmpty -> JStr "empty"
-     | EnvVersion -> JStr "version")
+    let tree_json = of_wres (fun fs -> JArr (SL.map of_tfield fs)) in
+    (match decode_all (jschema (jfield req "schema")) (jnat (jfield req "depth")) (jn (jfield req "m"))
+             (jbytes (jfield req "d")) with
+     | (EnvOk e, t) -> JObj [("env", of_env e); ("tree", tree_json t)]
+     | (EnvEmpty, _) -> JStr "empty"
+     | (EnvVersion, _) -> JStr "version")
   | "encode_all" ->
-    let payload = ser_tree (jtree (jfield req "tree")) in
-    (match jfield req "hash", jfield req "sig" with
-     | JNull, _ | _, JNull -> of_bytes (env_encode (Unsigned payload))
-     | h, s -> of_bytes (env_encode (Signed (jbytes h, jbytes s, payload))))
+    let sg = (match jfield req "hash", jfield req "sig" with
+        | JNull, _ | _, JNull -> None
+        | h, s -> Some (jbytes h, jbytes s)) in
+    of_bytes (encode_all sg (jtree (jfield req "tree")))
+  | "purchase_encode_all" -> of_bytes (purchase_encode_all (jtree (jfield req "tree")))
+  | "purchase_decode_all" ->
+    of_option (of_wres (fun fs -> JArr (SL.map of_tfield fs)))
+      (purchase_decode_all (jschema (jfield req "schema")) (jnat (jfield req "depth")) (jn (jfield req "m"))
+         (jbytes (jfield req "d")))
   | "url_parse" -> of_option of_url (url_parse (jstr_cp (jfield req "s")))
   | "url_print" -> of_str (url_print (jurl (jfield req "u")))
   | "canon" -> of_str (canon (jstr_cp (jfield req "s")))
